@@ -201,7 +201,14 @@ def run_syscall_case(case, ctx):
 def run_case(case, ctx):
 	import numpy as np
 	if case['kind'] == 'syscall_points':
-		return run_syscall_case(case, ctx)
+		# a system-call-level case costs one fresh interpreter under strace per crash point (up to 30 s): at most 2 per worker
+		# in the quick tier (Hypothesis repeats rare branches in bursts); further ones run at library level instead
+		done = ctx.cache.get('c19_syscall_cases', 0)
+		if ctx.tier == 'quick' and done >= 2 and not case.get('replay'):
+			case = {'kind': 'all_points', 'payload': case['payload'], 'preexisting': None, 'how': 'sigkill'}
+		else:
+			ctx.cache['c19_syscall_cases'] = done + 1
+			return run_syscall_case(case, ctx)
 	if case['kind'] == 'syscall_point':
 		c = dict(case)
 		c['kind'] = 'syscall_points'
